@@ -9,7 +9,7 @@ from ..harness import Violation
 
 LEVEL = "exploration"
 RULE = (
-    "Label maps over the labels of 1-4 named groups (random partition of a subset of 1..6; kinds plain / merge / "
+    "Label maps over the labels of 1-4 named groups (random partition of a subset of {1..6, 9, 10, 11, 17, 19, 33, 200}; kinds plain / merge / "
     "single-instance; names with '-', '_', space, '.', upper case) in 1-3-D x input types (signed dtypes too for semantic "
     "input) x matcher {threshold, many-to-one, merge} x optional decision metric; plus a variant in which every voxel not "
     "belonging to one target group is rewritten arbitrarily, and a variant holding one label of no group - a positive one or, for signed dtypes, a negative one - (in the "
@@ -26,7 +26,7 @@ ASSUMPTIONS = [
     "labels of different groups are disjoint (overlapping group definitions are outside the property)",
 ]
 BUDGET = {"quick": 150, "thorough": 2000}
-BOUNDS = {"sides": "1-D<=16, 2-D<=8, 3-D<=5", "labels": "1..6 (+ one undefined label <= 9)"}
+BOUNDS = {"sides": "1-D<=16, 2-D<=8, 3-D<=5", "labels": "<= 201"}
 
 
 def _map_to_labels(a, labels):
@@ -56,9 +56,10 @@ def case_strategy(draw):
     if draw(st.booleans()):
         dm = draw(st.sampled_from(["IOU", "DSC", "ASSD"]))
         dec = [dm, draw(st.sampled_from([0.0, 0.3, 0.5, 1.0]))]
-    dtypes = ["uint8", "uint16", "uint32"] + (["int8", "int32", "int64"] if it == "SEMANTIC" else [])
+    mxl = max(defined + [201])  # wide enough for every defined and undefined label
+    dtypes = [d for d in ["uint8", "uint16", "uint32"] + (["int8", "int16", "int32", "int64"] if it == "SEMANTIC" else []) if np.iinfo(d).max >= mxl]
     und = None
-    free = [l for l in range(1, 10) if l not in defined]
+    free = [l for l in (1, 2, 3, 4, 5, 6, 7, 8, 9, 10, 12, 18, 34, 201) if l not in defined]
     dtype = draw(st.sampled_from(dtypes))
     if np.dtype(dtype).kind == "i":
         free = free + [-1, -3]  # a negative value is a non-zero label of no group, too
